@@ -257,6 +257,13 @@ pub fn relations_for(seed: u64, problem: &Value, matrices: &[Value]) -> (Vec<Val
     let gens = p.usize(1, 4);
     let config = json!({"termination": {"maxGenerations": gens}, "environment": {"logging": {"enabled": false}},
         "telemetry": {"progress": {"enabled": false}, "metrics": {"enabled": false}}});
+    // (vicinity clustering is switched off for the first solve: its tours are then replayed in full by the oracle, and the
+    // jobs of the relations are the kind of jobs clustering has to keep its hands off in the second solve)
+    let mut phase1 = problem.clone();
+    if let Some(plan) = phase1["plan"].as_object_mut() {
+        plan.remove("clustering");
+    }
+    let problem = &phase1;
     let case = W1Case { problem: problem.clone(), matrices: matrices.to_vec(), config, spec: RunSpec::from_seed(seed ^ 0x0EE1_A710_5EED), rel: Default::default() };
     let out = w1::execute(&case);
     let text = match &out.result {
